@@ -32,6 +32,13 @@ Record transformer := mkT {
 Definition path := list nat.
 Definition log := list path.
 
+Fixpoint path_eqb (a b : path) : bool :=
+  match a, b with
+  | [], [] => true
+  | x :: a', y :: b' => Nat.eqb x y && path_eqb a' b'
+  | _, _ => false
+  end.
+
 Section Traversals.
   Variable T : transformer.
 
@@ -129,26 +136,6 @@ Section Traversals.
     end.
 
   (* ---- Transformer_InPlace ---------------------------------------------------------------- *)
-  (* the tree while it is being rewritten in place: a child slot holds an untouched node or a
-     value that replaced it *)
-  Inductive mtree :=
-  | MN (n : string) (ch : list mtree)
-  | MT (ty v : string)
-  | MNone
-  | MV (v : value).
-
-  Fixpoint embed (t : stree) : mtree :=
-    match t with Tr n ch => MN n (map embed ch) | Tok ty v => MT ty v | NoneV => MNone end.
-
-  (* what a callback sees when handed the slot *)
-  Fixpoint raw (m : mtree) : value :=
-    match m with
-    | MN n ch => VTree n (map raw ch)
-    | MT ty v => VTok ty v
-    | MNone => VNone
-    | MV v => v
-    end.
-
   Definition is_tree (t : stree) : bool := match t with Tr _ _ => true | _ => false end.
 
   Definition tree_kids (p : path) (t : stree) : list (path * stree) :=
@@ -172,52 +159,54 @@ Section Traversals.
   Definition iter_subtrees (t : stree) : option (list (path * stree)) :=
     option_map (@rev _) (bfs (ssize t) [([], t)]).
 
+  (* The heap: `subtree.children = [...]` rebinds the children list of ONE object; objects are
+     identified by their path.  A cell exists once the object has been rewritten; an object
+     without a cell still has its original children. *)
+  Definition heap := list (path * list value).
+
+  Fixpoint hlookup (h : heap) (p : path) : option (list value) :=
+    match h with
+    | [] => None
+    | (q, vs) :: r => if path_eqb q p then Some vs else hlookup r p
+    end.
+
+  (* c.children as the callback sees it *)
+  Definition cur_children (h : heap) (p : path) (ch : list stree) : list value :=
+    match hlookup h p with Some vs => vs | None => map inj ch end.
+
   (* list(self._transform_children(subtree.children)) for the subtree at path p;
      _transform_tree(c) = _call_userfunc(c) reads c.children from the heap *)
-  Fixpoint ip_children (p : path) (i : nat) (ch : list mtree) : list mtree * log :=
+  Fixpoint ip_children (h : heap) (p : path) (i : nat) (ch : list stree) : list value * log :=
     match ch with
     | [] => ([], [])
     | c :: r =>
-        let '(r', l2) := ip_children p (S i) r in
+        let '(vs, l2) := ip_children h p (S i) r in
         match c with
-        | MN n ch' => (MV (call_rule n (map raw ch')) :: r', (p ++ [i]) :: l2)
-        | MT ty v => (MV (call_token ty v) :: r', (p ++ [i]) :: l2)
-        | _ => (c :: r', l2)
+        | Tr n' ch' => (call_rule n' (cur_children h (p ++ [i]) ch') :: vs, (p ++ [i]) :: l2)
+        | Tok ty v => (call_token ty v :: vs, (p ++ [i]) :: l2)
+        | NoneV => (VNone :: vs, l2)
         end
     end.
 
-  Fixpoint update {A} (i : nat) (x : A) (l : list A) : list A :=
-    match l, i with
-    | [], _ => []
-    | _ :: r, 0 => x :: r
-    | y :: r, S j => y :: update j x r
+  (* subtree.children = list(self._transform_children(subtree.children)) *)
+  Definition ip_step (h : heap) (x : path * stree) : heap * log :=
+    match snd x with
+    | Tr _ ch => let '(vs, lg) := ip_children h (fst x) 0 ch in ((fst x, vs) :: h, lg)
+    | _ => (h, [])
     end.
 
-  (* subtree.children = ... for the node at path p (full = the same path, for the log) *)
-  Fixpoint ip_at (full p : path) (m : mtree) : mtree * log :=
-    match p, m with
-    | [], MN n ch => let '(ch', lg) := ip_children full 0 ch in (MN n ch', lg)
-    | i :: p', MN n ch =>
-        match nth_error ch i with
-        | Some c => let '(c', lg) := ip_at full p' c in (MN n (update i c' ch), lg)
-        | None => (m, [])
-        end
-    | _, _ => (m, [])
-    end.
-
-  Definition ip_fold (order : list (path * stree)) (m : mtree) : mtree * log :=
-    fold_left (fun (st : mtree * log) (x : path * stree) =>
-                 let '(m', l') := ip_at (fst x) (fst x) (fst st) in (m', snd st ++ l'))
-              order (m, []).
+  Definition ip_fold (order : list (path * stree)) : heap * log :=
+    fold_left (fun (st : heap * log) x => let '(h', l') := ip_step (fst st) x in (h', snd st ++ l'))
+              order ([], []).
 
   Definition transform_ip (t : stree) : option (value * log) :=
     match iter_subtrees t with
     | None => None
     | Some order =>
-        let '(m, lg) := ip_fold order (embed t) in
-        match m with
-        | MN n ch => Some (call_rule n (map raw ch), lg ++ [[]])     (* self._transform_tree(tree) *)
-        | _ => None
+        let '(h, lg) := ip_fold order in
+        match t with
+        | Tr n ch => Some (call_rule n (cur_children h [] ch), lg ++ [[]])   (* self._transform_tree(tree) *)
+        | _ => None                                                          (* iter_subtrees: AttributeError *)
         end
     end.
 End Traversals.
